@@ -156,6 +156,7 @@ def run(tier: str, budget: Budget, rnd, prop: str) -> StreamResult:
                         # the table is left in an unspecified partial state by a raising compute: resynchronise
                         K = sorted(o["K"])
                         g.set_known_values([float(v[k]) for k in K], [Coalition(k) for k in K])
+                        o["K"] = set(K) | {0}          # the bulk reset always re-knows the empty coalition
                         script.add(f"tab compute {name} {o['comp']}", ans, {"history": list(o["hist"]), "n": n})
                         script.add(f"tab setknown {name} {nlist(K)} {rlist([v[k] for k in K])}", "ok")
                         res.count(f"compute-outside-guard:{ans}")
